@@ -100,6 +100,9 @@ func seqCases(prop, tier string, seed uint64) []Case {
 		}
 	}
 	var cases []Case
+	if prop == "C05" {
+		cases = append(cases, Case{ID: "c05-witness-rsa-recipient", Seed: 5, Kind: "witness:rsa-recipient", P: json.RawMessage("{}")})
+	}
 	for _, wc := range witnessCases(prop) {
 		cases = append(cases, wc)
 	}
@@ -763,6 +766,7 @@ func genOptsFor(prop string, cfg Cfg, comps []string) GenOpts {
 	case "C02":
 		o.Late = true
 	case "C01":
+		o.FarTimes = true
 		o.Batched = true // symlinks: only in the witness case of the open finding (they vanish from listings after a rebuild)
 	case "C05":
 		o.Batched = true
@@ -770,6 +774,7 @@ func genOptsFor(prop string, cfg Cfg, comps []string) GenOpts {
 	case "C04":
 		o.Batched = true
 	case "C07":
+		o.FarTimes = true
 		o.Batched, o.BiasMoves = true, true
 	case "C12":
 		o.BiasMoves = true
@@ -783,6 +788,50 @@ func genOptsFor(prop string, cfg Cfg, comps []string) GenOpts {
 	return o
 }
 
+// rsaRecipientRun is the witness of the open finding rsa-recipient-size-mismatch: with an OpenPGP recipient whose encryption key is
+// RSA, the encrypted session key is an integer whose leading zero bytes are dropped, so the two passes of a content write (one to
+// learn the encoded size for the tar header, one to write) differ by a byte about once in 128 writes. The loop is long enough to
+// meet that with probability 1 - 8e-6; it stops at the first call that fails.
+func rsaRecipientRun(c Case, w *Worker) (res Result) {
+	cfg := Cfg{Enc: "pgp", Level: "fastest", RS: 20, WC: "memory", RSA: true}
+	res.setAdd("configs", cfg.String())
+	rig, err := NewRig(w.NewDir("rsa"), cfg)
+	if err != nil {
+		res.Verdict, res.Msg = "inconclusive", "rig: "+err.Error()
+		return
+	}
+	defer rig.Close()
+	if err := rig.Init(); err != nil {
+		res.Verdict, res.Msg = "inconclusive", "init: "+err.Error()
+		return
+	}
+	res.NonTrivial = true
+	res.Key = "rsa-recipient"
+	for i := 0; i < 1500; i++ {
+		rig.LocksSettled()
+		before, _ := os.Stat(rig.Drive)
+		name := fmt.Sprintf("/f%04d", i)
+		werr := afero.WriteFile(rig.FS, name, []byte("hello world"), 0o644)
+		rig.LocksSettled()
+		after, _ := os.Stat(rig.Drive)
+		res.count("content_writes_for_an_rsa_recipient", 1)
+		if werr != nil {
+			if after.Size() != before.Size() || after.Size()%512 != 0 {
+				res.violate("c05|witness:rsa-recipient|failed-write-appended", fmt.Sprintf("[%s] write #%d (11 bytes to %s) failed with %q after appending %d bytes; the tape is %d bytes long (%d mod 512)", cfg, i, name, werr, after.Size()-before.Size(), after.Size(), after.Size()%512))
+				return
+			}
+			res.Verdict, res.Msg = "inconclusive", fmt.Sprintf("write #%d failed without appending: %v", i, werr)
+			return
+		}
+		if after.Size()%512 != 0 {
+			res.violate("c05|witness:rsa-recipient|not-aligned", fmt.Sprintf("[%s] after write #%d the tape is %d bytes long (%d mod 512)", cfg, i, after.Size(), after.Size()%512))
+			return
+		}
+	}
+	res.Sample = map[string]any{"cfg": cfg.String(), "writes": 1500, "note": "no size mismatch between the two passes met in this run"}
+	return
+}
+
 func seqRun(prop, tier string, c Case, w *Worker) (res Result) {
 	if c.Kind == "giant" {
 		var hp handP
@@ -792,6 +841,9 @@ func seqRun(prop, tier string, c Case, w *Worker) (res Result) {
 			res.Sig = strings.ToLower(prop) + "|" + strings.TrimPrefix(res.Sig, "c14|")
 		}
 		return
+	}
+	if c.Kind == "witness:rsa-recipient" {
+		return rsaRecipientRun(c, w)
 	}
 	var p seqP
 	_ = json.Unmarshal(c.P, &p)
@@ -918,14 +970,42 @@ func seqRun(prop, tier string, c Case, w *Worker) (res Result) {
 			}
 			res.count("instance_restarts", 1)
 		}
+		// C05: now and then the operating system refuses the drive for exactly one call (its directory is gone, or the path is a
+		// directory); the call may fail, and nothing that was on the tape may change because of it - not in this call and not in
+		// the next one that succeeds (an overwriting manager must not take the failed open as a reason to truncate again)
+		var unbreak func() error
+		if prop == "C05" && len(p.Ops) == 0 && h.step > 2 && h.step%5 == 3 && c.Seed%3 != 1 {
+			op.Brk = []string{"missing", "isdir"}[(int(c.Seed>>8)+h.step/5)%2]
+		}
+		if op.Brk != "" {
+			rig.LocksSettled()
+			if unbreak, err = rig.BreakDriveMode(op.Brk); err != nil {
+				res.Verdict, res.Msg = "inconclusive", "breaking the drive: "+err.Error()
+				return
+			}
+			res.count("calls_with_the_drive_refused_by_the_os", 1)
+		}
 		h.ops = append(h.ops, op)
 		before := h.tree
 		out := execOp(rig, op)
+		if unbreak != nil {
+			rig.LocksSettled()
+			if err := unbreak(); err != nil {
+				res.Verdict, res.Msg = "inconclusive", "restoring the drive: "+err.Error()
+				return
+			}
+			if !out.OK {
+				res.count("calls_failing_with_the_drive_refused", 1)
+			}
+		}
 		h.outs = append(h.outs, out)
 		res.count("calls", 1)
 		res.count("calls_"+op.K, 1)
 		if op.Spell != 0 || op.SpellB != 0 {
 			res.count("calls_with_unusual_spelling", 1)
+		}
+		if op.Far != 0 {
+			res.count("calls_chtimes_beyond_the_reach_of_int64_nanoseconds", 1)
 		}
 		if p.Exotic {
 			res.count("calls_in_exotic_histories", 1)
@@ -950,7 +1030,10 @@ func seqRun(prop, tier string, c Case, w *Worker) (res Result) {
 			break
 		}
 		mo, mexp := MOut{}, Outcome{}
-		if h.inSync {
+		if h.inSync && op.Brk != "" && !out.OK {
+			// refused by the operating system: nothing happened, the reference stays where it is
+			mo.Amb = true
+		} else if h.inSync {
 			mo, mexp = applyModel(h.model, op)
 			if !mo.Amb && mo.OK != out.OK {
 				if prop != "C02" {
